@@ -358,6 +358,159 @@ CLAIMS["C12"] = (
     CLAIMS["C12"][4],
 )
 
+# ---- session 4: claims restated after the third wave of contracts (the functions are listed in DESIGN.md §9.2)
+
+CLAIMS["C01"] = (
+    "other",
+    "Proved (children and canvases abstract, i.e. for every child honouring the widget / canvas protocol): the rendered size of Padding (box, flow, clip and fixed), Filler, Pile, Columns*, Frame, "
+    "Overlay (box, flow and fixed), BoxAdapter, AttrMap, GraphVScale, GridFlow, Scrollable, ScrollBar, Divider, SolidFill, Text (against an abstract layout: rows == lines of the layout at that width, "
+    "render has that many rows, pack agrees; the cached translation is the layout's own answer -- class invariant over every mutator), BigText, WidgetDisable, PopUpLauncher and the delegating decoration "
+    "mixins (WidgetWrap, WidgetPlaceholder, LineBox, AttrMap) is the size asked for: box -> exactly (maxcol, maxrow); flow -> (maxcol, own rows()); fixed -> own pack(()); sizing() tells the truth per "
+    "class (a size of an unreported mode raises the documented error before anything is drawn); a cursor lies inside the canvas. Below them: Pile.get_item_rows / get_rows_sizes exact fill, "
+    "CompositeCanvas.__init__ / trim / trim_end / pad_trim_left_right / pad_trim_top_bottom / cols over the real shard fields, SolidCanvas, TextCanvas.__init__ (0-2 rows*). The statement itself (every "
+    "bundled widget, every valid size and focus flag) is decided by the bounded stand-in: all widget trees of depth <= 2 (sampled depth 3) over every bundled leaf, decoration and container class with "
+    "the option combinations of the quantifier, texts incl. wide / zero-width / DEC characters, three encodings, sizes 1..6 x 1..4.",
+    "Bounded for the statement as a whole. Assumed: the canvas protocol for CanvasCombine / CanvasJoin / CanvasOverlay (checked by C02's bounded canvas-protocol check), apply_text_layout (rows = lines), "
+    "Columns.get_column_sizes. ProgressBar.render, Edit.render, Pile/Columns fixed-size paths, LineBox.__init__: bounded only. Nine known findings (degenerate zero-width / zero-weight cases)." + TIERNOTE,
+    "§6 C01, §9",
+    TECH + " for the size lemmas; " + BOUNDED_TECH,
+)
+
+CLAIMS["C02"] = (
+    "other",
+    "Proved: the complete run-length kernel against the expansion view (rle_len, rle_get_at, rle_append_modify, rle_prepend_modify, rle_join_modify, rle_subseg, rle_factor, rle_product*), calc_trim_text "
+    "(str and bytes views), trim_text_attr_cs (every kept character keeps its attribute and character set; the blank that stands for a cut double-width character carries THAT character's attribute), "
+    "cview_trim_rows/top/left/cols, CompositeCanvas.__init__ / trim / trim_end / pad_trim_left_right / pad_trim_top_bottom / cols / fill_attr / fill_attr_apply over the real shard fields (size, cursor and "
+    "pop-up move with the content or go with it, a finalized canvas refuses, the operand's shard and cview lists are never written to), SolidCanvas, TextCanvas.__init__ for 0-2 rows* (row j is the line "
+    "padded to maxcol, attribute / charset runs cover the row), _tagmarkup_recurse / decompose_tagmarkup (one attribute per character = its innermost tag). The cell-for-cell statement is decided by the "
+    "bounded stand-in: an independent grid model (spec/grid.py); all expression trees of depth <= 2 (sampled deeper) over leaf canvases <= 4x3 with wide and zero-width characters, 2-run attribute lists, "
+    "cursors and pop-ups, all defined offsets; plus the canvas protocol every container proof assumes.",
+    "The shard algebra (shard_body / shard_body_tail / shards_join: iterator-driven generators) is outside the deductive subset: shards_trim_* stay assumed; CanvasCombine / CanvasJoin / CanvasOverlay bounded only. "
+    "One known finding (a composite trimmed to zero rows forgets its width)." + TIERNOTE,
+    "§6 C02, §9",
+    TECH + " for the run-length kernel, the cview arithmetic and the composite-canvas mutators; " + BOUNDED_TECH + " against an independent grid model",
+)
+
+CLAIMS["C03"] = (
+    "other",
+    "Proved on the real text_layout.py (str texts, abstract width function of C11): LayoutSegment.__init__ / subseg, line_width, shift_line, trim_line (columns are exactly the part of the range the line "
+    "covers; every result segment shows part of an original segment at its column), calc_coords / calc_line_pos / calc_pos (cell of the character at a position; closest position to a column; nearest "
+    "row that has one), StandardTextLayout.align_layout (exact left / center / right padding), pack, layout, calculate_text_segments for 'any' wrap (lines account for the whole text, each fits the width "
+    "and is filled), 'clip' / 'ellipsis' (_calculate_trimmed_segments: one line per paragraph, cut to exactly the width with the mark) and 'space' wrap (well-formed lines that fit, exact chaining, hidden "
+    "characters only newline / space / zero-width; termination incl. the un-wrap) ; Text.rows / render / pack agree with the layout's answer after any history of mutators (class invariant). The statement "
+    "(every character once and in order, breaks only at spaces when every word fits, maximal fill, all encodings, bytes) is decided by the bounded stand-in: all strings of length <= 5 over {a, b, space, "
+    "newline, a double-width and a zero-width character} x widths x 4 wrap modes x 3 alignments x 3 encodings x str/bytes, histories of measurements and mutators on one widget, random long texts.",
+    "Deductive contracts are over str texts; bytes / multi-byte encodings, 'breaks only at spaces' and the composed calc_coords-calc_pos round trip are bounded only. Assumed: get_ellipsis_string (codec), "
+    "apply_text_layout (one row per line). One known finding (CJK break rules next to a double-width character in 'space' mode).",
+    "§6 C03, §9",
+    TECH + " for the layout arithmetic and the Text cache invariant; " + BOUNDED_TECH,
+)
+
+CLAIMS["C04"] = (
+    "other",
+    "Proved pieces of the raw display: escape.set_cursor_position / move_cursor_* formats, Screen._attrspec_to_escape (the SGR string decodes -- by a symbolic SGR decoder cross-checked against spec/sgr.py -- "
+    "to exactly the specified foreground, background and settings at every colour depth, from any prior rendition), Screen._last_row (the bottom-right insert trick: moved cell, inserted piece, attributes "
+    "and widths; rows of 1-3 segments), Screen.clear, Screen._on_update_palette_entry, AttrSpec.__eq__ / __hash__ (equal exactly when the packed words are equal -- the row diff and SGR switch of "
+    "draw_screen rest on it). The statement (a terminal interpreting the bytes shows the canvas) is decided by the bounded stand-in: the bytes the real raw display writes for frame histories of <= 3 small "
+    "canvases (wide characters, DEC characters, attribute runs incl. near-equal AttrSpecs, cursor or none), interleaved with clear() and resizes, at 5 colour depths, are interpreted by an independent "
+    "reference terminal (spec/term_state.py + spec/sgr.py, written from ECMA-48/xterm) and compared cell-for-cell, cursor, never-scrolled, incremental == full repaint; HtmlGenerator text and cursor span.",
+    "draw_screen itself (300 lines, byte-level) is not under contract: bounded only, level 'other'. The reference interpreter is part of the oracle (trusted). Three known findings on control characters in canvas text.",
+    "§6 C04, §9",
+    TECH + " for the escape formats, SGR generation and AttrSpec equality; " + BOUNDED_TECH + " against a reference terminal interpreter",
+)
+
+CLAIMS["C07"] = (
+    "other",
+    "Proved on the real ListBox code (walker and item widgets abstract; the walker as a chain around the focus with row prefix sums): calculate_visible (the window is a stretch of the chain with no gap, "
+    "trims inside the outermost items, never more than the box, blank rows only below the last item and only with everything above shown, a focus row and the cursor row visible, every listed item has its "
+    "widget's rows; never raises), render (canvas is the box; every ListBoxError site but one unreachable), get_focus_offset_inset, shift_focus, _set_focus_valign_complete, _set_focus_complete, "
+    "change_focus, set_focus, mouse_event (a button-1 press on a visible selectable item makes that position the focus; nothing else moves it), the list walkers and the whole MonitoredFocusList "
+    "(focus follows its item through every mutation). The statement over histories is decided by the bounded stand-in: lists of 0..4 flow widgets (heights 0, 1, 3, taller than the box; composite items "
+    "with attributes; the same widget at several positions), boxes of 1..5 rows, all sequences of <= 2 (sampled 3-4) operations from keys, mouse, set_focus, set_focus_valign, resize, walker edits; three "
+    "walker classes; cell-exact contiguous-slice oracle.",
+    "Termination of calculate_visible's loops (a walker may offer unboundedly many 0-row items), a pending focus change inside calculate_visible, page up / page down: bounded only. Assumed: ListWalker "
+    "protocol. One known finding (unfocused render of a focus item whose height depends on focus).",
+    "§6 C07, §9",
+    TECH + "; " + BOUNDED_TECH,
+)
+
+CLAIMS["C15"] = (
+    "other",
+    "Proved on the real TermCanvas code: (i) the whole byte-level parser -- addstr, addbyte (UTF-8 assembly), process_char, parse_escape, parse_csi (executing the real CSI_COMMANDS table and the ASTs of its "
+    "lambdas), parse_noncsi, parse_osc, set_mode / csi_set_modes, tab stops, charset handling -- NEVER RAISES for any byte in any parser state and keeps the grid + parser invariant (grid height x width, "
+    "cursor and scrolling region inside, escape buffer well-formed, UTF-8 counters in range); missing / zero / huge CSI parameters are defaulted so that every callee precondition holds; DSR / DA replies "
+    "are the exact widget calls; (ii) every grid and cursor operation equals a reference VT100 state transformer (blank_line, scroll, set_char, erase, insert / remove chars and lines, linefeed, push_char, "
+    "push_cursor incl. pending wrap, csi_set_scroll, save / restore cursor, scroll_buffer, init_tabstops, resize* incl. the scroll-back exchange; for 17 CSI final bytes the state after parse_csi is the "
+    "model state); (iii) SGR: sgi_to_attrspec / csi_set_attr decode to the rendition a reference SGR interpreter gives (composition lemmas: a later SGR never changes a colour or flag it does not "
+    "mention), reverse video, content() incl. the scrolled-back view. Faithfulness over whole byte streams, resizes at any point and chunking is decided by the bounded stand-in: addstr on all byte "
+    "strings <= 3 over 24 representative bytes at several sizes incl. one column, CSI parameters from {missing, 0, 1, size, size+1, 10^9}, resize / tab-stop / SGR-accumulation families, against an "
+    "independent VT100 reference interpreter.",
+    "Decimal values of CSI parameters are abstract (int() is a value or ValueError), the OSC title text and origin-mode erase are outside the statement's subset. Assumed: the text codec of AttrSpec on abstract "
+    "texts (cross-checked against 47,600 real constructions per run), widget beep / leds / set_title do not re-enter. MODULE_FLAGS qf_forall_only for the grid module (run-time only)." + TIERNOTE,
+    "§6 C15, §9",
+    TECH + " for the parser (never raises + invariant), the grid operations and SGR; " + BOUNDED_TECH + " against a reference VT100 interpreter",
+)
+
+CLAIMS["C17"] = (
+    "other",
+    "Proved: _tagmarkup_recurse / decompose_tagmarkup (each character carries the attribute of its innermost tag; runs never extend past the text; no zero-length run), AttrMap.__init__ / set_attr_map / "
+    "set_focus_map / render and AttrWrap setters (maps stored as given, focus map used exactly when focused and not None), CompositeCanvas.fill_attr / fill_attr_apply over the real fields (outer map "
+    "applied to the result of the inner map, membership not truthiness), trim_text_attr_cs (clipping never moves an attribute onto a neighbouring character), the run-length kernel, AttrSpec.__init__ / "
+    "background setter / __eq__ / __hash__, Screen._attrspec_to_escape (decoded SGR == specified rendition) and _on_update_palette_entry. The end-to-end statement (markup -> canvas -> terminal "
+    "attributes unchanged through every container, clip and overlay) is decided by the bounded stand-in over markup trees, attribute maps, containers, clipping routes and colour depths.",
+    "TextCanvas.content (a generator) and draw_screen are bounded only. Dict model with symbolic keys (pyvc/fmap.py) cross-checked against CPython on every run." + TIERNOTE,
+    "§6 C17, §9",
+    TECH + "; " + BOUNDED_TECH,
+)
+
+def _amend(pid, text_add=None, note=None, note_replace=None):
+    cat, text, n, ref, tech = CLAIMS[pid]
+    if text_add:
+        text = text + " " + text_add
+    if note is not None:
+        n = note
+    if note_replace:
+        for a, b in note_replace:
+            assert a in n, (pid, a)
+            n = n.replace(a, b)
+    CLAIMS[pid] = (cat, text, n, ref, tech)
+
+
+_amend("C08",
+       "GridFlow: the cached display widget is rebuilt for the current cells and width before every delegated call (get_display_widget), generate_display_widget places every cell once, in reading order, and "
+       "its focus is the focus cell; keypress / mouse_event / move_cursor_to_coords write the display widget's focus back (_set_focus_from_display_widget). CommandMap: a copy owns its table, set / delete / clear "
+       "change only the named keys, the defaults table is never aliased. WidgetContainerMixin.__getitem__ yields the child's base widget, which the protocol keeps distinct from the child (selectability is the child's own).",
+       note="ListBox.keypress / render round trips and get/set_focus_path on real nestings: bounded stand-in (all container classes incl. decorated unselectable children and private command maps, depth <= 3, "
+            "key / click / assignment / contents-edit sequences). ListBox.calculate_visible is verified under C07 and used here as a callee contract. Assumed: ListWalker protocol, Columns.get_column_sizes. "
+            "Three known findings." + TIERNOTE)
+_amend("C12",
+       "MainLoop._run_screen_event_loop (the fallback loop for screens without event-loop support) is verified, no longer assumed: one redraw before every wait with no user code in between, the wait bounded by "
+       "the held alarm, input to the filter then to process_input once, alarm callbacks only when due, no normal return. BaseScreen.start marks the screen started before the start hook announces its "
+       "input descriptors; Screen.get_input_descriptors / hook_event_loop / unhook_event_loop and MainLoop._reset_input_descriptors re-hook exactly the descriptors a started screen reports; the asyncio, tornado, "
+       "twisted and trio run() wrappers re-raise the kept exception exactly once (also a falsy one) and swallow only ExitMainLoop.")
+_amend("C13",
+       "ZMQEventLoop (poller modelled): alarm / remove_alarm / watch_queue / watch_file / remove_watch_* / enter_idle / remove_enter_idle as for the select loop, _loop (exactly one poll, no blocking wait while "
+       "an idle pass is owed, the alarm run is the earliest pending and not before it is due, a ready key is skipped only if its watch is gone) and run(). Adapter run() wrappers and exception handlers "
+       "(asyncio, tornado, twisted, trio): any exception of a callback stops the loop and is re-raised exactly once.",
+       note_replace=[("Ordering and timing inside asyncio, tornado, twisted, trio, zmq", "Ordering and timing inside asyncio, tornado, twisted and trio (and zmq's real poller)")])
+_amend("C14",
+       "Signals.disconnect (by arguments: removes the first entry that equals them and only that one, survivors in order), Signals.register, MetaSignals.__init__ (a class registers exactly its own and its bases' "
+       "names, the class attribute shows them to subclasses, no base's list is written to), and the library's own connect / disconnect pairs: ListBox.body setter (the old body is disconnected whatever its "
+       "truth value, the new one connected exactly once) and MainLoop.start / stop.",
+       note="Assumes: weakref.ref / Key() models (fresh, referent), opaque callbacks; GC timing: bounded only; 'never keeps a sender alive' beyond the closure-capture check is not decided.")
+_amend("C06",
+       "The reverse map of weak references is part of the proved invariant (every key of _refs names an entry still cached under that key holding that very reference: invalidate and cleanup leave no stale "
+       "reference); a static provenance obligation shows that no CompositeCanvas method mutates in place a shard or cview list it may share with a cached canvas; GridFlow's display-widget cache is "
+       "invalidated with the widget.")
+_amend("C10",
+       "Signals.emit / _call_callback (delivery of 'change' / 'postchange') are verified with C14's contracts; calc_coords / calc_pos / calc_line_pos (cursor cell and click position on a layout) are verified "
+       "with C03's contracts over str texts.")
+_amend("C19",
+       "GridFlow.generate_display_widget (cells at the configured width, h_sep between them, a new row exactly when the next cell does not fit, v_sep blank rows between rows) against a model of the Pile / "
+       "Columns / Padding / Divider API cross-checked against the real widgets on 1188 small GridFlows per run.",
+       note_replace=[("; GridFlow layout: bounded only", "")])
+
+
 PENDING = "contracts for this property are not built yet in this commit (see DESIGN.md §6 for the plan); no check is claimed"
 
 
